@@ -24,10 +24,21 @@ namespace Bpmn.Model.IdGen
 
 /-! ## Fallback generator (`pkg/id/fallback.go`) -/
 
-/-- `"fallback-" + prefix(base 36) + "-" + n(decimal)` as the pair it encodes (the harness checks that
-re-encoding the pair gives back the string, so the pair determines the string and conversely). -/
+/-- The prefix of a fallback generator: the creation-time clock reading (`time.Now().UnixNano()`) and, when
+`NewFallbackGenerator` mixes one in, the value of the package-level atomic counter of fallback generators
+(`serial = 0`: no serial component — the counter is incremented before use, so a real serial is ≥ 1).
+Rendered `<clock base 36>` or `<clock base 36>.<serial base 36>`. -/
+structure FbPrefix where
+  clock  : Nat
+  serial : Nat
+deriving DecidableEq, Repr
+
+instance (n : Nat) : OfNat FbPrefix n := ⟨⟨n, 0⟩⟩
+
+/-- `"fallback-" + prefix + "-" + n(decimal)` as the data it encodes (the harness checks that re-encoding gives
+back the string, so the data determine the string and conversely). -/
 structure FbId where
-  pfx : Nat
+  pfx : FbPrefix
   n   : Nat
 deriving DecidableEq, Repr
 
@@ -42,13 +53,26 @@ deriving DecidableEq, Repr
 def upd {α : Type} (f : Nat → α) (i : Nat) (v : α) : Nat → α := fun j => if j = i then v else f j
 
 structure FbGen where
-  pfx     : Nat            -- `time.Now().UnixNano()` read at creation
+  pfx     : FbPrefix       -- fixed at creation
   counter : Nat            -- uint64
   pcs     : Nat → FbPc
   out     : List FbId      -- ids handed out, newest first
 
-/-- `NewFallbackGenerator()` with the clock reading `clock` -/
-def fbNew (clock : Nat) : FbGen := { pfx := clock, counter := 0, pcs := fun _ => .idle, out := [] }
+/-- a fallback generator with prefix `p` -/
+def fbNew (p : FbPrefix) : FbGen := { pfx := p, counter := 0, pcs := fun _ => .idle, out := [] }
+
+/-- `NewFallbackGenerator()` called once per entry of `gs` = (clock reading, schedule of draws on that generator), in
+the order of the atomic increments of the package-level counter `fallbackGenerators` (value so far: `created`).
+The clock readings are arbitrary — in particular equal when generators are created within one nanosecond.
+`withSerial = true`: the prefix is (clock, serial) with `serial := atomic.AddUint64(&fallbackGenerators, 1)`;
+`withSerial = false`: the prefix is the clock reading alone. -/
+def fbProgram (withSerial : Bool) (created : Nat) : List (Nat × List Nat) → List (FbPrefix × List Nat)
+  | [] => []
+  | (c, s) :: rest =>
+    if withSerial then
+      let n := (created + 1) % u64
+      (⟨c, n⟩, s) :: fbProgram withSerial n rest
+    else (⟨c, 0⟩, s) :: fbProgram withSerial created rest
 
 /-- One step of thread `i` inside `fallbackGenerator.New`. `atomic = true`: `atomic.AddUint64(&g.counter, 1)` is a
 single step. `atomic = false` (the counter incremented by a plain load and store): two steps. -/
